@@ -1,0 +1,16 @@
+//go:build verif
+
+package build
+
+import (
+	"chainguard.dev/apko/pkg/build/types"
+	"chainguard.dev/apko/pkg/passwd"
+)
+
+// VerifUserToUserEntry exposes userToUserEntry to the verification harness (check on the Go → Lean translator).
+func VerifUserToUserEntry(u types.User) passwd.UserEntry { return userToUserEntry(u) }
+
+// VerifAppendGroup exposes appendGroup to the verification harness.
+func VerifAppendGroup(groups []passwd.GroupEntry, g types.Group) []passwd.GroupEntry {
+	return appendGroup(groups, g)
+}
